@@ -37,6 +37,8 @@ def cmp_eval(e, env):
     if k == "v":
         return env[e[1]]
     if k == "c":
+        if e[2] == "bool":
+            return CV("bool", z3.BoolVal(bool(e[1])))
         raise ValueError("constant in comparator")
     if k == "cast":
         v = cmp_eval(e[1], env)
@@ -66,13 +68,20 @@ def cmp_eval(e, env):
             return CV("bool", z3.And(a.t, b.t))
         if op == "||":
             return CV("bool", z3.Or(a.t, b.t))
+        if a.kind == "bool" and b.kind == "bool" and op in ("==", "!=", "<", ">", "<=", ">="):
+            # bool operands are promoted to int
+            x, y = z3.If(a.t, 1, 0), z3.If(b.t, 1, 0)
+            return CV("bool", {"<": x < y, ">": x > y, "<=": x <= y, ">=": x >= y, "==": x == y, "!=": x != y}[op])
         if a.kind == "fp" or b.kind == "fp":
             srt = a.t.sort() if a.kind == "fp" else b.t.sort()
             x, y = to_fp(a, srt), to_fp(b, srt)
-            return CV("bool", {"<": z3.fpLT(x, y), ">": z3.fpGT(x, y), "<=": z3.fpLEQ(x, y), ">=": z3.fpGEQ(x, y)}[op])
+            return CV("bool", {"<": z3.fpLT(x, y), ">": z3.fpGT(x, y), "<=": z3.fpLEQ(x, y), ">=": z3.fpGEQ(x, y),
+                               "==": z3.fpEQ(x, y), "!=": z3.Not(z3.fpEQ(x, y))}[op])
         if a.kind == "bv" and b.kind == "bv":
             if a.t.size() != b.t.size():
                 raise ValueError("operand widths differ")
+            if op in ("==", "!="):
+                return CV("bool", (a.t == b.t) if op == "==" else (a.t != b.t))
             if a.signed and b.signed:
                 return CV("bool", {"<": a.t < b.t, ">": a.t > b.t, "<=": a.t <= b.t, ">=": a.t >= b.t}[op])
             return CV("bool", {"<": z3.ULT(a.t, b.t), ">": z3.UGT(a.t, b.t), "<=": z3.ULE(a.t, b.t), ">=": z3.UGE(a.t, b.t)}[op])
@@ -95,6 +104,13 @@ def cmp_body(body, env):
             env[s[1]] = v
         elif s[0] == "ret" and s[1][0] == "val":
             return cmp_eval(s[1][1], env).t
+        elif s[0] == "if" and not s[3]:
+            # `if (c) { return x; }` followed by the rest of the body
+            c = cmp_eval(s[1], env).t
+            rest = body[body.index(s) + 1:]
+            return z3.If(c, cmp_body(s[2], env), cmp_body(rest, env))
+        elif s[0] == "block":
+            return cmp_body(s[1] + body[body.index(s) + 1:], env)
         else:
             raise ValueError("statement %s in comparator" % s[0])
     raise ValueError("comparator has no return")
@@ -151,6 +167,95 @@ def comparator_obligations():
                 r_ = s.check()
                 st = "proved" if r_ == z3.unsat else ("refuted" if r_ == z3.sat else "unknown")
                 out.append(("L.swo", "%s: %s" % (desc0, pname), st, time.time() - t0, str(s.model())[:500] if r_ == z3.sat else None))
+    return out
+
+
+QUICK = [os.path.join(cast.REPO, "src", "cpu-kernels", "awkward_quick_sort.cpp"),
+         os.path.join(cast.REPO, "src", "cpu-kernels", "awkward_quick_argsort.cpp")]
+
+
+def small_promote(v):
+    """C's integer promotion of a comparison operand narrower than int"""
+    if v.kind == "bv" and v.t.size() < 32:
+        return CV("bv", z3.SignExt(32 - v.t.size(), v.t) if v.signed else z3.ZeroExt(32 - v.t.size(), v.t), True)
+    return v
+
+
+def quick_predicate_obligations():
+    """order_ascending<T> / order_descending<T> of the hand-written quicksort (the predicate handed to quick_sort /
+    quick_argsort): bit-precise, loop-free, complete.  Each is the total preorder `NaN first, then <= / >=`:
+    pred(l, r)  <=>  isnan(l) or (not isnan(r) and l <= r)   (>= for descending), which is total and transitive.
+    binary_op<T>(l, r, f) must be exactly the indirect call (*f)(l, r) (syntactic)."""
+    out = []
+    for path in QUICK:
+        base = os.path.basename(path)
+        r = cast.extract_file(path, filt="order_", tolerant=True)
+        seen = 0
+        for f in r["functions"]:
+            if f["name"] not in ("order_ascending", "order_descending") or f.get("body") is None or not f.get("targs"):
+                continue
+            ty = f["targs"][0]
+            if ty in ("f64", "f32"):
+                srt = z3.Float64() if ty == "f64" else z3.Float32()
+                mk = lambda n, srt=srt: CV("fp", z3.FP(n, srt))
+            elif ty in INTW:
+                w, sg = INTW[ty]
+                mk = lambda n, w=w, sg=sg: CV("bv", z3.BitVec(n, w), sg)
+            elif ty == "bool":
+                mk = lambda n: CV("bool", z3.Bool(n))
+            else:
+                continue
+            seen += 1
+            pn = [p[0] for p in f["params"]]
+            desc0 = "%s<%s> (%s:%s)" % (f["name"], ty, base, f.get("line"))
+            asc = "ascending" in f["name"]
+
+            def cmp(x, y):
+                return cmp_body(f["body"], {pn[0]: x, pn[1]: y})
+            a, b, c = mk("a"), mk("b"), mk("c")
+            try:
+                if ty in ("f64", "f32"):
+                    want = z3.Or(z3.fpIsNaN(a.t), z3.And(z3.Not(z3.fpIsNaN(b.t)), z3.fpLEQ(a.t, b.t) if asc else z3.fpGEQ(a.t, b.t)))
+                elif ty == "bool":
+                    x, y = z3.If(a.t, 1, 0), z3.If(b.t, 1, 0)
+                    want = (x <= y) if asc else (x >= y)
+                else:
+                    w, sg = INTW[ty]
+                    want = ((a.t <= b.t) if sg else z3.ULE(a.t, b.t)) if asc else ((a.t >= b.t) if sg else z3.UGE(a.t, b.t))
+                props = {"is `NaN first, then %s`" % ("<=" if asc else ">="): cmp(a, b) == want,
+                         "total": z3.Or(cmp(a, b), cmp(b, a)),
+                         "transitive": z3.Implies(z3.And(cmp(a, b), cmp(b, c)), cmp(a, c))}
+            except (ValueError, KeyError) as ex:
+                out.append(("L.preorder", "%s: %s" % (desc0, ex), "unknown", 0.0, None))
+                continue
+            for pname, claim in props.items():
+                t0 = time.time()
+                s = z3.Solver()
+                s.set("timeout", 30000)
+                s.add(z3.Not(claim))
+                r_ = s.check()
+                st = "proved" if r_ == z3.unsat else ("refuted" if r_ == z3.sat else "unknown")
+                out.append(("L.preorder", "%s: %s" % (desc0, pname), st, time.time() - t0, str(s.model())[:500] if r_ == z3.sat else None))
+        if not seen:
+            out.append(("L.preorder", "%s: no order_ascending/order_descending instantiation found" % base, "unknown", 0.0, None))
+        r = cast.extract_file(path, filt="binary_op", tolerant=True)
+        fs = [f for f in r["functions"] if f["name"] == "binary_op"]
+        for f in fs:
+            body = f.get("body") or []
+            pn = [p[0] for p in f["params"]]
+            ok = False
+            if len(body) == 1 and body[0][0] == "ret" and body[0][1][0] == "val" and len(pn) == 3:
+                e = body[0][1][1]
+                if e[0] == "icall" and len(e[2]) == 2:
+                    fe = e[1]
+                    while fe[0] in ("ld", "cast") and fe[1][0] in ("v", "ld", "cast"):
+                        fe = fe[1]
+                    args = [x[1] if x[0] == "v" else None for x in e[2]]
+                    ok = fe[0] == "v" and fe[1] == pn[2] and args == pn[:2]
+            out.append(("B.binary_op", "binary_op<%s> (%s:%s) is exactly the call (*f)(left, right)" % (f["targs"][0] if f.get("targs") else "?", base, f.get("line")),
+                        "proved" if ok else "refuted", 0.0, None if ok else repr(body)[:500]))
+        if not fs:
+            out.append(("B.binary_op", "%s: binary_op not found" % base, "unknown", 0.0, None))
     return out
 
 
@@ -399,6 +504,14 @@ def engine(pid, tier, seed, known, which=("sorts", "strings")):
                                        "status": st, "time": round(dt, 3), "backend": "z3-fp", "model": model, "auto": False})
             n += 1
         out["functions"]["sort_order_*/argsort_order_* comparators"] = {"obligations": n}
+        m = 0
+        for kind, desc, st, dt, model in quick_predicate_obligations():
+            oid = "quick_predicates:%s#%d" % (kind, m)
+            out["obligations"].append({"id": oid, "unit": "quick_predicates", "kind": kind, "label": "lemma", "line": None, "desc": desc,
+                                       "status": st, "time": round(dt, 3), "backend": "z3-fp" if kind.startswith("L.") else "syntactic",
+                                       "model": model, "auto": False})
+            m += 1
+        out["functions"]["order_ascending/order_descending predicates and binary_op of the hand-written quicksort"] = {"obligations": m}
         if n == 0:
             out["errors"].append("no comparator instantiation found in awkward_sort.cpp / awkward_argsort.cpp")
     so = native.build_kernels()
